@@ -130,10 +130,15 @@ def type_param_map(cls):
     return m
 
 
+PARAM_OVERRIDE = {}  # generic class -> {TypeVar: argument}: the specialisation a unit was compiled for
+
+
 def resolved_hints(cls):
     """get_type_hints with the type parameters of specialised generic ancestors substituted"""
     hints = typing_extensions.get_type_hints(cls, include_extras=True)
     m = type_param_map(cls)
+    if cls in PARAM_OVERRIDE:
+        m = {**m, **PARAM_OVERRIDE[cls]}
     if not m:
         return hints
     return {k: subst_params(v, m) for k, v in hints.items()}
